@@ -143,6 +143,28 @@ class Rec(Ty):
         return getattr(self.sort(), "R_%s_mk" % self.name)(*[val if k == f else self.get(term, k) for k in self.fields])
 
 
+class ObjRec(Rec):
+    """A python OBJECT kept as a record value inside a list (`List(ObjRec(...))`): its identity is its list slot.
+    Reads of a slot in exec mode yield a ListItemRef, attribute stores go to the slot; a freshly built object held in a
+    local is a plain record value whose attribute stores rebind the local, and `lst.append(local)` turns the local into
+    the slot reference (ownership assumption: an object belongs to exactly one list slot - appending one that is
+    already slot-bound is unsupported)."""
+
+    objlike = True
+
+
+class ListItemRef(Ty):
+    """reference to an ObjRec stored in a list slot: z = (list ref V, index z3 term)"""
+
+    kind = "lref"
+
+    def __init__(self, rec):
+        self.rec = rec
+
+    def key(self):
+        return "lref:" + self.rec.name
+
+
 class Seq(Ty):
     """Immutable finite sequence value (tuple of unknown length, or the content of a list)."""
 
